@@ -564,3 +564,375 @@ Proof. intros H. eapply inv_push_reachf, reach_reachf; eauto. Qed.
 
 Lemma inv_calls_reach c s : reach c s -> inv_calls s.
 Proof. intros H. eapply inv_push_calls, inv_push_reach; eauto. Qed.
+
+(** * filter_batch / complete_cb change nothing but [cbs] and [calls] *)
+Definition same_but_cb (s s' : state) : Prop := s' = s <| cbs := cbs s' |> <| calls := calls s' |>.
+
+Lemma sbc_refl s : same_but_cb s s.
+Proof. destruct s; reflexivity. Qed.
+
+Lemma sbc_trans s1 s2 s3 : same_but_cb s1 s2 -> same_but_cb s2 s3 -> same_but_cb s1 s3.
+Proof. unfold same_but_cb. intros H1 H2. rewrite H2. rewrite H1 at 1. destruct s1; reflexivity. Qed.
+
+Lemma complete_cb_sbc i r s : same_but_cb s (fst (complete_cb i r s)).
+Proof.
+  unfold complete_cb. destruct (nth_error (cbs s) i); cbn [fst]; [|apply sbc_refl].
+  destruct s; reflexivity.
+Qed.
+
+Lemma filter_batch_sbc : forall ms s keep acc, same_but_cb s (fst (fst (filter_batch ms s keep acc))).
+Proof.
+  induction ms as [|m r IH]; intros s keep acc; cbn [filter_batch]; [apply sbc_refl|].
+  destruct (is_req_or_notif m); auto.
+  destruct (assoc (fix_id (j_id m)) (calls s)) as [i|].
+  - match goal with |- context [complete_cb ?i ?v ?s] =>
+      pose proof (complete_cb_sbc i v s) as H'; destruct (complete_cb i v s) as [s' os] end.
+    eapply sbc_trans; [exact H'|apply IH].
+  - destruct (c_push s && is_nil (j_method m) && has_reply_fields m); auto.
+Qed.
+
+Lemma sbc_fields s s' : same_but_cb s s' ->
+  c_push s' = c_push s /\ running s' = running s /\ closes s' = closes s /\ starts s' = starts s /\
+  call_id s' = call_id s /\ ops s' = ops s /\ ended s' = ended s /\ send_fail s' = send_fail s /\
+  inq s' = inq s /\ tasks s' = tasks s /\ units s' = units s /\ rd s' = rd s /\ dp s' = dp s /\ nbar s' = nbar s /\
+  crash s' = crash s /\ work_closed s' = work_closed s /\ used s' = used s /\ wg s' = wg s.
+Proof. intros H. rewrite H. repeat split; reflexivity. Qed.
+
+(** * C09.5 a late, duplicate or unsolicited reply is inert *)
+Definition late_reply (s : state) (m : jmsg) : Prop :=
+  c_push s = true /\ is_req_or_notif m = false /\ j_method m = [] /\ has_reply_fields m = true /\
+  assoc (fix_id (j_id m)) (calls s) = None.
+
+Lemma late_reply_skipped s m r keep acc :
+  late_reply s m -> filter_batch (m :: r) s keep acc = filter_batch r s keep acc.
+Proof.
+  intros (P & Q & M & F & A). cbn [filter_batch]. rewrite Q, A, P, M, F. reflexivity.
+Qed.
+
+Lemma late_reply_inert s m : late_reply s m -> filter_batch [m] s [] [] = (s, [], []).
+Proof. intros H. rewrite late_reply_skipped; auto. Qed.
+
+(* consequently the reader's critical section queues nothing, creates no task and sends nothing *)
+Lemma late_reply_read_cs s b m :
+  running s = true -> late_reply s m ->
+  read_cs (FMsg (InMsgs b [m])) s = (s <| rd := RIdle |>, []).
+Proof.
+  intros R H. unfold read_cs. rewrite R. cbn [negb]. rewrite late_reply_inert; auto.
+Qed.
+
+(* the state [filter_batch] has reached after a prefix of the batch *)
+Definition fb_state (ms : list jmsg) (s : state) : state := fst (fst (filter_batch ms s [] [])).
+
+Lemma filter_batch_app : forall ms1 ms2 s keep acc,
+  filter_batch (ms1 ++ ms2) s keep acc =
+  let '(s1, _, _) := filter_batch ms1 s keep acc in
+  filter_batch ms2 s1 (rev (snd (fst (filter_batch ms1 s keep acc)))) (snd (filter_batch ms1 s keep acc)).
+Proof.
+  induction ms1 as [|m r IH]; intros ms2 s keep acc; cbn [app filter_batch].
+  - cbn. rewrite rev_involutive. reflexivity.
+  - destruct (is_req_or_notif m); [apply IH|].
+    destruct (assoc (fix_id (j_id m)) (calls s)) as [i|].
+    + destruct (complete_cb i _ s) as [s' os]. apply IH.
+    + destruct (c_push s && is_nil (j_method m) && has_reply_fields m); apply IH.
+Qed.
+
+Lemma filter_batch_state_indep : forall ms s keep acc keep' acc',
+  fst (fst (filter_batch ms s keep acc)) = fst (fst (filter_batch ms s keep' acc')).
+Proof.
+  induction ms as [|m r IH]; intros; cbn [filter_batch]; auto.
+  destruct (is_req_or_notif m); auto.
+  destruct (assoc (fix_id (j_id m)) (calls s)) as [i|].
+  - destruct (complete_cb i _ s) as [s' os]. apply IH.
+  - destruct (c_push s && is_nil (j_method m) && has_reply_fields m); apply IH.
+Qed.
+
+(* general form: inside a longer batch the late member is skipped and the others are
+   processed exactly as if it were not there ("late" is judged when its turn comes, so a
+   second reply to a callback completed earlier in the same batch is covered) *)
+Lemma late_reply_skipped_in_batch ms1 m ms2 s keep acc :
+  late_reply (fst (fst (filter_batch ms1 s keep acc))) m ->
+  filter_batch (ms1 ++ m :: ms2) s keep acc = filter_batch (ms1 ++ ms2) s keep acc.
+Proof.
+  intros H. rewrite !filter_batch_app.
+  destruct (filter_batch ms1 s keep acc) as [[s1 k1] a1]. cbn [fst snd] in *.
+  apply late_reply_skipped; auto.
+Qed.
+
+(* lateness is stable while the batch is processed: [calls] only shrinks *)
+Lemma complete_cb_assoc_none i r s k : assoc k (calls s) = None -> assoc k (calls (fst (complete_cb i r s))) = None.
+Proof.
+  intros H. unfold complete_cb. destruct (nth_error (cbs s) i) as [c|]; cbn [fst]; auto.
+  change (assoc k (assoc_del (cb_id c) (calls s)) = None).
+  destruct (beq_spec (cb_id c) k) as [->|N]; [apply assoc_del_same|rewrite assoc_del_other; auto].
+Qed.
+
+Lemma filter_batch_assoc_none : forall ms s keep acc k,
+  assoc k (calls s) = None -> assoc k (calls (fst (fst (filter_batch ms s keep acc)))) = None.
+Proof.
+  induction ms as [|m r IH]; intros s keep acc k H; cbn [filter_batch]; auto.
+  destruct (is_req_or_notif m); auto.
+  destruct (assoc (fix_id (j_id m)) (calls s)) as [i|].
+  - match goal with |- context [complete_cb ?i ?v ?s] =>
+      pose proof (complete_cb_assoc_none i v s k H) as H'; destruct (complete_cb i v s) as [s' os] end.
+    apply IH; auto.
+  - destruct (c_push s && is_nil (j_method m) && has_reply_fields m); auto.
+Qed.
+
+Lemma late_reply_stable ms s keep acc m : late_reply s m -> late_reply (fst (fst (filter_batch ms s keep acc))) m.
+Proof.
+  intros (P & Q & M & F & A).
+  destruct (sbc_fields _ _ (filter_batch_sbc ms s keep acc)) as (E & _).
+  repeat split; auto; [congruence|apply filter_batch_assoc_none; auto].
+Qed.
+
+Lemma late_reply_inert_in_batch ms1 m ms2 s keep acc :
+  late_reply s m -> filter_batch (ms1 ++ m :: ms2) s keep acc = filter_batch (ms1 ++ ms2) s keep acc.
+Proof. intros H. apply late_reply_skipped_in_batch, late_reply_stable; auto. Qed.
+
+(** * Sample configurations and messages for the non-vacuity examples *)
+Definition cfg_push : config := {| cf_K := 2; cf_push := true; cf_builtin := false; cf_methods := [[109]%N]; cf_unblock := false |}.
+Definition cfg_nopush : config := {| cf_K := 2; cf_push := false; cf_builtin := false; cf_methods := [[109]%N]; cf_unblock := false |}.
+Definition reply_msg (id result : bytes) : jmsg :=
+  {| j_id := id; j_method := []; j_params := []; j_error := None; j_result := result; j_err := None |}.
+Definition error_msg (id : bytes) (code : Z) (msg : bytes) : jmsg :=
+  {| j_id := id; j_method := []; j_params := []; j_error := Some {| we_code := code; we_msg := msg; we_data := [] |};
+     j_result := []; j_err := None |}.
+Definition note_msg (method params : bytes) : jmsg :=
+  {| j_id := []; j_method := method; j_params := params; j_error := None; j_result := []; j_err := None |}.
+Definition call_msg (id method params : bytes) : jmsg :=
+  {| j_id := id; j_method := method; j_params := params; j_error := None; j_result := []; j_err := None |}.
+
+Definition run_state (c : config) (tr : list label) : option state := option_map fst (run (init_of c) tr).
+
+Lemma run_state_reach c tr s : run_state c tr = Some s -> reach c s.
+Proof.
+  unfold run_state. destruct (run (init_of c) tr) as [[s' oss]|] eqn:E; [|discriminate].
+  intros [= <-]. eapply run_reach; [constructor|exact E].
+Qed.
+
+(** C09.1 examples *)
+Example gate_push_off_nonvacuous :
+  exists s, reach cfg_nopush s /\ c_push s = false /\ running s = true /\
+    step s (LCallPush 5 true [109]%N []) = Some (s, [ORet 5 APushUnsupported]).
+Proof.
+  destruct (run_state cfg_nopush [LStart]) as [s|] eqn:E; [|discriminate E].
+  exists s. split; [eapply run_state_reach; eauto|].
+  vm_compute in E. injection E as <-. vm_compute. auto.
+Qed.
+
+Example gate_conn_closed_nonvacuous :
+  exists s s', reach cfg_push s /\ running s = false /\
+    step s (LRelPush 5) = Some (s', [ORet 5 AConnClosed]).
+Proof.
+  destruct (run_state cfg_push [LStart; LCallStop 1; LRelStop 1; LCallPush 5 true [109]%N []]) as [s|] eqn:E; [|discriminate E].
+  exists s. eexists. split; [eapply run_state_reach; eauto|].
+  vm_compute in E. injection E as <-. vm_compute. auto.
+Qed.
+
+(** C09.5 example: a reply for callback id 7 that was never issued, arriving at a running push server *)
+Example late_reply_nonvacuous :
+  exists s, reach cfg_push s /\ running s = true /\ late_reply s (reply_msg [55]%N [49]%N) /\
+    exists s', step s LRelRead = Some (s', []) /\ inq s' = [] /\ tasks s' = [] /\ calls s' = calls s /\ cbs s' = cbs s.
+Proof.
+  destruct (run_state cfg_push [LStart; LFeed (FMsg (InMsgs false [reply_msg [55]%N [49]%N]))]) as [s|] eqn:E; [|discriminate E].
+  exists s. split; [eapply run_state_reach; eauto|].
+  vm_compute in E. injection E as <-. vm_compute. repeat split; auto. eexists; repeat split.
+Qed.
+
+(** * C09.2 one request per push, fresh callback id *)
+Definition is_sendreq (o : obs) : bool := match o with OSendReq _ _ _ _ => true | _ => false end.
+
+Lemma settle_obs_no_sendreq extra : Forall settle_obs extra -> filter is_sendreq extra = [].
+Proof. induction 1 as [|o l H _ IH]; cbn; auto. destruct o; cbn in *; auto; tauto. Qed.
+
+Lemma find_op_num n l o : find_op n l = Some o -> op_num o = n /\ In o l.
+Proof.
+  unfold find_op. intros H. apply find_some in H as [I E]. apply Nat.eqb_eq in E. auto.
+Qed.
+
+Lemma push_one_request_raw s n s' os :
+  step_raw s (LRelPush n) = Some (s', os) -> running s = true ->
+  exists w m p, find_op n (ops s) = Some (OpPush n w m p) /\ In (OpPush n w m p) (ops s) /\
+    os = OSendReq (negb (send_fail s)) (if w then dec_of_nat (call_id s) else []) m p ::
+         (if w && negb (send_fail s) then [] else [ORet n (if send_fail s then ASendFailed else AOk)]) /\
+    call_id s' = (if w then S (call_id s) else call_id s) /\
+    ops s' = del_op n (ops s).
+Proof.
+  cbn [step_raw]. intros H R.
+  destruct (find_op n (ops s)) as [[| |n' w m p]|] eqn:F; try discriminate.
+  apply find_op_num in F as [F1 F2]. cbn in F1. subst n'.
+  exists w, m, p. split; auto. split; auto.
+  cbn in H. rewrite R in H. cbn in H.
+  destruct w.
+  - destruct (send_fail s); injection H as <- <-; cbn; auto.
+  - destruct (send_fail s); injection H as <- <-; cbn; auto.
+Qed.
+
+Lemma push_one_request_step s n s' os :
+  step s (LRelPush n) = Some (s', os) -> running s = true ->
+  exists w m p, In (OpPush n w m p) (ops s) /\
+    filter is_sendreq os = [OSendReq (negb (send_fail s)) (if w then dec_of_nat (call_id s) else []) m p] /\
+    call_id s' = (if w then S (call_id s) else call_id s).
+Proof.
+  intros H R. apply step_decompose in H as (C & s1 & os1 & Raw & D).
+  destruct (push_one_request_raw _ _ _ _ Raw R) as (w & m & p & _ & I & Eo & Ec & _).
+  exists w, m, p. split; auto.
+  assert (F1 : filter is_sendreq os1 = [OSendReq (negb (send_fail s)) (if w then dec_of_nat (call_id s) else []) m p]).
+  { rewrite Eo. cbn. destruct (w && negb (send_fail s)); reflexivity. }
+  destruct D as [(_ & -> & ->)|(_ & S)]; auto.
+  pose proof (settle_pv _ _ _ _ _ S) as P. apply pv_fields in P.
+  destruct (settle_obs_app _ _ _ _ _ S) as (ex & -> & Fx).
+  rewrite filter_app, (settle_obs_no_sendreq _ Fx), app_nil_r. split; auto.
+  destruct P as (_ & _ & _ & _ & _ & -> & _). auto.
+Qed.
+
+(* the id handed out next is not the id of any registered callback, nor of any callback record *)
+Lemma fresh_id s : inv_push s ->
+  (forall k i, In (k, i) (calls s) -> k <> dec_of_nat (call_id s)) /\
+  (forall i c, nth_error (cbs s) i = Some c -> cb_id c <> dec_of_nat (call_id s)).
+Proof.
+  intros [H1 _ _ H4 _]. split.
+  - intros k i I E. destruct (H1 _ _ I) as (j & L & ->). apply dec_of_nat_inj in E. lia.
+  - intros i c N E. destruct (H4 _ _ N) as (j & L & E'). rewrite E' in E. apply dec_of_nat_inj in E. lia.
+Qed.
+
+(* ids of distinct callback records are distinct *)
+Lemma cb_ids_distinct s i j ci cj : inv_push s ->
+  nth_error (cbs s) i = Some ci -> nth_error (cbs s) j = Some cj -> cb_id ci = cb_id cj -> i = j.
+Proof.
+  intros [_ _ _ _ H5] Ni Nj E.
+  eapply (proj1 (NoDup_nth_error (map cb_id (cbs s))) H5).
+  - rewrite map_length. apply nth_error_Some. congruence.
+  - rewrite (map_nth_error cb_id _ _ Ni), (map_nth_error cb_id _ _ Nj). congruence.
+Qed.
+
+(** * C09.4 a callback is completed only by the reply bearing its id, or by its own watcher *)
+Definition member_val (m : jmsg) : cbres :=
+  match j_error m with Some e => CErr (we_code e) (we_msg e) | None => CRes (j_result m) end.
+Definition res_of_val (v : cbres) : apires :=
+  match v with CRes raw => ACbRes raw | CErr code msg => ctx_res code msg end.
+Definition member_res (m : jmsg) : apires := res_of_val (member_val m).
+Definition ctx_why (c : cb) : why := match cb_ctx c with Some WDeadline => WDeadline | _ => WCancel end.
+
+(* observation [o] is the return of the callback registered under the id of some reply member of [ms] *)
+Definition reply_ret (s : state) (ms : list jmsg) (o : obs) : Prop :=
+  exists m i c, In m ms /\ is_req_or_notif m = false /\ assoc (fix_id (j_id m)) (calls s) = Some i /\
+    nth_error (cbs s) i = Some c /\ cb_id c = fix_id (j_id m) /\ o = ORet (cb_op c) (member_res m).
+
+(* what one completion does, when the index is registered *)
+Lemma complete_cb_reg k i v s :
+  inv_push s -> In (k, i) (calls s) ->
+  exists c, nth_error (cbs s) i = Some c /\ cb_id c = k /\ cb_ret c = false /\ cb_slot c = None /\
+    complete_cb i v s =
+      (s <| cbs ::= upd_nth i (fun c => wake_watch (c <| cb_slot := Some v |>)) |> <| calls ::= assoc_del k |>,
+       [ORet (cb_op c) (res_of_val v)]).
+Proof.
+  intros H I. destruct (ip_reg _ H _ _ I) as (c & N & E & (O1 & O2 & _)).
+  exists c. repeat split; auto. unfold complete_cb. rewrite N, O2, E. reflexivity.
+Qed.
+
+(* records keep their op number and id *)
+Lemma complete_cb_cbs i v s j c' :
+  nth_error (cbs (fst (complete_cb i v s))) j = Some c' ->
+  exists c, nth_error (cbs s) j = Some c /\ cb_id c = cb_id c' /\ cb_op c = cb_op c'.
+Proof.
+  unfold complete_cb. destruct (nth_error (cbs s) i) as [c0|] eqn:N; cbn [fst]; [|eauto].
+  change (nth_error (upd_nth i (fun c => wake_watch (c <| cb_slot := Some v |>)) (cbs s)) j = Some c' -> 
+          exists c, nth_error (cbs s) j = Some c /\ cb_id c = cb_id c' /\ cb_op c = cb_op c').
+  rewrite nth_error_upd_nth. destruct (i =? j); [|eauto].
+  destruct (nth_error (cbs s) j) as [x|]; cbn; [|discriminate]. intros [= <-]. eauto.
+Qed.
+
+Lemma complete_cb_calls i v s k j :
+  assoc k (calls (fst (complete_cb i v s))) = Some j -> assoc k (calls s) = Some j.
+Proof.
+  unfold complete_cb. destruct (nth_error (cbs s) i) as [c0|] eqn:N; cbn [fst]; auto.
+  change (assoc k (assoc_del (cb_id c0) (calls s)) = Some j -> assoc k (calls s) = Some j).
+  intros H. apply assoc_del_some in H as [H _]. auto.
+Qed.
+
+Lemma reply_ret_back i v s ms m o :
+  reply_ret (fst (complete_cb i v s)) ms o -> reply_ret s (m :: ms) o.
+Proof.
+  intros (m' & j & c' & I & Q & A & N & E & ->).
+  apply complete_cb_calls in A. apply complete_cb_cbs in N as (c & N & Ei & Eo).
+  exists m', j, c. rewrite Eo. repeat split; auto; [right; auto|congruence].
+Qed.
+
+Lemma reply_ret_cons s ms m o : reply_ret s ms o -> reply_ret s (m :: ms) o.
+Proof.
+  intros (m' & j & c' & I & Q & A & N & E & ->). exists m', j, c'. repeat split; auto. right; auto.
+Qed.
+
+Lemma filter_batch_matches : forall ms s keep acc s' keep' acc',
+  inv_push s -> filter_batch ms s keep acc = (s', keep', acc') ->
+  exists extra, acc' = acc ++ extra /\ Forall (reply_ret s ms) extra.
+Proof.
+  induction ms as [|m r IH]; intros s keep acc s' keep' acc' H E; cbn [filter_batch] in E.
+  - injection E as <- <- <-. exists []. rewrite app_nil_r. auto.
+  - destruct (is_req_or_notif m) eqn:Q.
+    { destruct (IH _ _ _ _ _ _ H E) as (ex & -> & F). exists ex. split; auto.
+      eapply Forall_impl; [|exact F]. intros; apply reply_ret_cons; auto. }
+    destruct (assoc (fix_id (j_id m)) (calls s)) as [i|] eqn:A.
+    2:{ assert (E' : filter_batch r s keep acc = (s', keep', acc') \/ filter_batch r s (m :: keep) acc = (s', keep', acc')).
+        { destruct (c_push s && is_nil (j_method m) && has_reply_fields m); auto. }
+        destruct E' as [E'|E']; destruct (IH _ _ _ _ _ _ H E') as (ex & -> & F); exists ex; (split; auto);
+          (eapply Forall_impl; [|exact F]); intros; apply reply_ret_cons; auto. }
+    pose proof (assoc_in _ _ _ A) as I.
+    destruct (complete_cb_reg _ _ (member_val m) _ H I) as (c & N & Eid & _ & _ & Ec).
+    fold (member_val m) in E. 
+    pose proof (complete_cb_ip i (member_val m) s H) as H1.
+    assert (RB : forall o, reply_ret (fst (complete_cb i (member_val m) s)) r o -> reply_ret s (m :: r) o)
+      by (intros; eapply reply_ret_back; eauto).
+    rewrite Ec in E, H1, RB. cbn [fst] in H1, RB.
+    destruct (IH _ _ _ _ _ _ H1 E) as (ex & -> & F).
+    exists (ORet (cb_op c) (res_of_val (member_val m)) :: ex). rewrite <- app_assoc. split; auto.
+    constructor.
+    + exists m, i, c. repeat split; auto. left; auto.
+    + eapply Forall_impl; [|exact F]. auto.
+Qed.
+
+(* the watcher: completes only its own, still registered callback, with its context's error *)
+Lemma ctx_res_cancel : ctx_res Cancelled s_ctx_canceled = ACbCtx WCancel.
+Proof. reflexivity. Qed.
+Lemma ctx_res_deadline : ctx_res DeadlineExceeded s_ctx_deadline = ACbCtx WDeadline.
+Proof. reflexivity. Qed.
+
+Lemma watch_own s i s' os :
+  inv_push s -> step_raw s (LRelCbWatch i) = Some (s', os) ->
+  exists c, nth_error (cbs s) i = Some c /\ cb_watch c = WParked /\
+    ((~ In (cb_id c, i) (calls s) /\ os = [] /\ calls s' = calls s) \/
+     (In (cb_id c, i) (calls s) /\ os = [ORet (cb_op c) (ACbCtx (ctx_why c))] /\
+      calls s' = assoc_del (cb_id c) (calls s))).
+Proof.
+  intros IH H. cbn [step_raw] in H.
+  destruct (nth_error (cbs s) i) as [cb0|] eqn:N; [|discriminate].
+  destruct (cb_watch cb0) eqn:W; try discriminate.
+  exists cb0. split; auto. split; auto.
+  replace (calls (s <| cbs ::= upd_nth i (fun c => c <| cb_watch := WDone |>) |>)) with (calls s) in H by reflexivity.
+  assert (NR : forall P : Prop, (In (cb_id cb0, i) (calls s) -> P -> False) -> P -> Some (s <| cbs ::= upd_nth i (fun c => c <| cb_watch := WDone |>) |>, @nil obs) = Some (s', os) ->
+     ~ In (cb_id cb0, i) (calls s) /\ os = [] /\ calls s' = calls s).
+  { intros P HP p [= <- <-]. repeat split; auto. }
+  destruct (assoc (cb_id cb0) (calls s)) as [j|] eqn:A.
+  2:{ left. apply (NR (assoc (cb_id cb0) (calls s) = None)); auto.
+      intros I A'. apply (NoDup_assoc _ _ _ (ip_nodup _ IH)) in I. congruence. }
+  destruct (cb_slot cb0) eqn:SL.
+  { left. apply (NR (cb_slot cb0 <> None)); auto; [|congruence].
+    intros I A'. destruct (ip_reg _ IH _ _ I) as (c' & N' & _ & (O1 & _)). congruence. }
+  destruct (Nat.eqb_spec j i) as [->|Ne].
+  2:{ left. apply (NR (j <> i)); auto.
+      intros I A'. apply (NoDup_assoc _ _ _ (ip_nodup _ IH)) in I. congruence. }
+  right. pose proof (assoc_in _ _ _ A) as I. split; auto.
+  destruct (ip_reg _ IH _ _ I) as (c' & N' & _ & (_ & O2 & _)).
+  assert (c' = cb0) by congruence. subst c'.
+  assert (E : exists v, res_of_val v = ACbCtx (ctx_why cb0) /\
+     complete_cb i v (s <| cbs ::= upd_nth i (fun c => c <| cb_watch := WDone |>) |>) = (s', os)).
+  { unfold ctx_why. destruct (cb_ctx cb0) as [[|]|]; injection H as H; eexists; (split; [|exact H]); reflexivity. }
+  destruct E as (v & Ev & E). clear H.
+  unfold complete_cb in E.
+  match type of E with context [nth_error ?l i] =>
+    change l with (upd_nth i (fun c => c <| cb_watch := WDone |>) (cbs s)) in E end.
+  rewrite (nth_error_upd_nth_eq _ _ _ _ N) in E. cbn [cb_ret cb_op cb_id] in E.
+  change (cb_ret (cb0 <| cb_watch := WDone |>)) with (cb_ret cb0) in E. rewrite O2 in E.
+  injection E as <- <-. rewrite <- Ev. split; reflexivity.
+Qed.
